@@ -1315,7 +1315,7 @@ rrul_fill_mly(echs_instant_t *restrict tgt, size_t nti, rrulsp_t rr)
 	}
 
 	/* fill up the array the hard way */
-	for (res = 0UL, tries = 64U; res < nti && y < 2100U && --tries;
+	for (res = 0UL, tries = 64U * 12U; res < nti && y < 2100U && --tries;
 	     ({
 		     do {
 			     if ((m += rr->inter) > 12) {
@@ -1387,7 +1387,9 @@ rrul_fill_mly(echs_instant_t *restrict tgt, size_t nti, rrulsp_t rr)
 					/* attach scale and convert back to greg */
 					x = echs_instant_attach_scale(x, srcsca);
 
-					tries = 64U;
+					/* give up after 64 years without a hit,
+					 * like everybody else */
+					tries = 64U * 12U;
 					tgt[res + GRP_CCH_OFF] = (echs_instant_t){.y = y, .m = m};
 					tgt[res++] = x;
 				}
